@@ -166,6 +166,23 @@ CLAIMED["C04"] = (
     "DESIGN.md section 6 C04",
 )
 
+CLAIMED["C10"] = (
+    "The real run_time_dependent_model, NewtonSolver.solve, the SolutionStrategy callbacks "
+    "(before_nonlinear_loop, after_nonlinear_iteration/convergence/failure, update_solution) and the adaptive "
+    "TimeManager run on a prepared SinglePhaseFlow model whose linear solve returns fresh symbolic increments "
+    "and whose convergence check returns symbolic (converged, diverged) flags - the fault injector; every "
+    "flag pattern within the bound is explored (the driver's own branches fork the paths). After every solve "
+    "z3 decides, for all increments: converged => stored time-step values = current iterate = initial iterate "
+    "+ sum of increments; failed => iterate and time-step values = last accepted solution and clock = last "
+    "accepted time; deeper history levels = earlier accepted solutions; the run ends at the final time with the "
+    "last accepted solution stored, or raises only once the recomputation budget is exhausted.",
+    "Floats as exact reals; concrete dyadic time-manager parameters; <= 3 Newton iterations per solve, <= 4 solves "
+    "(quick) / 6 (thorough); linear-system assembly, re-discretization and export are stubs; a step never reports "
+    "converged and diverged together.",
+    "symbolic execution of the simulation driver with nondeterministic environment stubs + SMT",
+    "DESIGN.md section 6 C10",
+)
+
 NOT_APPLICABLE = {
     "C11": "MPFA local systems are inverted in LAPACK/numba kernels on data-dependent block structures; a symbolic inverse of the interaction-region blocks is beyond z3/cvc5 and with concrete matrices nothing quantified remains for a solver.",
     "C13": "MPSA: same obstacle as C11 with 2-3x larger local systems.",
